@@ -326,7 +326,7 @@ struct World {
     }
     if (b.destroyed) {
       for (unsigned k = 0; k < sizeof(scope_buf); ++k)
-        if (scope_buf[k] != 0) { rt::fail("scope memory written after every join completed and every call on the scope returned (scope already destroyed)"); break; }
+        if (scope_buf[k] != 0) { rt::fail("scope memory written after all joins completed and all calls on the scope returned (scope destroyed)"); break; }
     }
   }
 };
@@ -346,13 +346,14 @@ SCENARIO(v2_race1) {
   w.finish();
 }
 
-// two workers, one joiner
+// T0 nests op0 and joins, T1 completes op0, T2 nests + starts + completes op1
 SCENARIO(v2_race2) {
   World<V2> w(2, 1, 3);
-  int t1 = rt::spawn([&] { w.spawn_nest(0); w.fire(0); });
+  w.spawn_nest(0);
+  int t1 = rt::spawn([&] { w.fire(0); });
   int t2 = rt::spawn([&] { w.spawn_nest(1); w.fire(1); });
-  int t3 = rt::spawn([&] { w.join(0); });
-  rt::join(t1); rt::join(t2); rt::join(t3);
+  w.join(0);
+  rt::join(t1); rt::join(t2);
   w.finish();
 }
 
@@ -371,7 +372,8 @@ SCENARIO(v2_late_nest) {
 // spawn_detached instead of nest + own receiver
 SCENARIO(v2_detached) {
   World<V2> w(2, 1, 3);
-  int t1 = rt::spawn([&] { w.spawn_detached(0); w.fire(0); });
+  w.spawn_detached(0);
+  int t1 = rt::spawn([&] { w.fire(0); });
   int t2 = rt::spawn([&] { w.spawn_detached(1); w.fire(1); });
   w.join(0);
   rt::join(t1); rt::join(t2);
